@@ -148,6 +148,16 @@ def mutate_once(s, op, a, b, c, keywords, donor):
         k = ks[a % len(ks)]
         return s[:k[0]] + keywords[b % len(keywords)] + s[k[1]:]
     if op == 4:
+        if c % 2:
+            # inside a statement, after its k-th token (k small): aims at the end-of-file checks of the token readers
+            st = statements(s)
+            if not st:
+                return s
+            x = st[a % len(st)]
+            tb = [m.end() for m in _TOK.finditer(s, x[0], x[1])]
+            if not tb:
+                return s
+            return s[:tb[b % min(len(tb), 6)]]
         tb = [m.end() for m in _TOK.finditer(s)]
         if not tb:
             return s
@@ -353,12 +363,17 @@ def report_key(report):
             w = m.group(1)
             kind = "ubsan." + re.sub(r"[^a-z]+", "_", w.lower().split(" for ")[0].split(" of ")[0])[:40].strip("_")
     fn = ""
-    for m in _FRAME.finditer(report):
-        f = m.group(1).strip()
-        if _SKIP_FRAME.match(f):
-            continue
-        fn = f
-        break
+    frames = [m.group(1).strip() for m in _FRAME.finditer(report)]
+    # the first frame of the code under test; else the first one which is not runtime / libstdc++
+    for f in frames[:40]:
+        if re.search(r"\b(mfront|mtest|tfel)::", f.split("(")[0]):
+            fn = f
+            break
+    if not fn:
+        for f in frames:
+            if not _SKIP_FRAME.match(f):
+                fn = f
+                break
     fn = re.sub(r"\(.*$", "", fn)           # drop the argument list
     fn = re.sub(r"<[^<>]*>", "", fn)         # drop simple template arguments
     fn = re.sub(r"[^A-Za-z0-9_:~]+", "_", fn).strip("_")
